@@ -5,7 +5,7 @@ RULE = ("random pairs of curves on the same interval: equal and different degree
         "multiplicities, polynomial and rational operands, scalar- and vector-valued points; operators + - * @ /, unary minus, and the "
         "scalar / matrix variants s+A, A+s, s-A, A-s, s*A, A*s, A/s, s/A, M@A, A@M (python numbers, Fractions, numpy arrays); operands on "
         "different intervals.  Non-trivial: some operand has an interior knot or degree >= 2; distinct = distinct (A, B, operator)."
-        " Also: rational operands with equal weight tuples on different knot vectors, float twin first.")
+        " Also: rational operands with equal weight tuples on different knot vectors, float twin first; Bezier operands of degree 4..5.")
 EXPLANATION = ("L3: for the implementation's result C the relation C = A op B is decided on the span polynomials of A, B and C (cross-multiplied "
                "for rational operands), i.e. for every u at once (`rf.rel`, `rf.map`); L2: the result is compared with the model's result as a "
                "function (`rf.eq`), and as a state where the property fixes the representation (sum on the union vector).")
@@ -157,6 +157,16 @@ def run(ctx):
         if label == "interval":
             UB = [x + 1 for x in UB]
         run_case(ctx, ser(dict(kind="binary", op=op, A=dict(U=UA, P=PA, W=WA), B=dict(U=UB, P=PB, W=WB))))
+    for i in range(budget(ctx, 6, 40)):
+        # products of higher degree (Bezier operands of degree 4..5, the same or different degrees): binomials up to C(10, k)
+        iv = rand_interval(rng)
+        pa_, pb_ = rng.randint(4, 5), rng.randint(4, 5) if i % 2 == 0 else rng.randint(2, 4)
+        UA = [iv[0]] * (pa_ + 1) + [iv[1]] * (pa_ + 1)
+        UB = [iv[0]] * (pb_ + 1) + [iv[1]] * (pb_ + 1)
+        op = rng.choice(["mul", "mul", "matmul"])
+        dim = 1 if op == "mul" else 2
+        run_case(ctx, ser(dict(kind="binary", op=op, A=dict(U=UA, P=rand_points(rng, pa_ + 1, dim), W=None),
+                               B=dict(U=UB, P=rand_points(rng, pb_ + 1, dim), W=None))))
     for i in range(budget(ctx, 12, 150)):
         # rational operands with the *same* weight tuple (and the same number of control points) on different knot vectors, and on
         # the same knot vector: the denominators are the same function only in the second case
